@@ -300,6 +300,9 @@ def setAttrOp (s : St) (h : Nat) (n : Node) (a : Attrs) (timesSet : Bool) : St Ã
         | .error e => ({ s with fs := fs2 }, some (mapErrno e))
         | .ok () => (acInv (updNodeAt { s with fs := fs2 } h fun _ => a) n.path, none)
 
+/-- `sattr.SetMode && sattr.Mode&0x8000 != 0` -/
+def badModeBit (sa : Sattr3) : Bool := match sa.mode with | some m => decide (m &&& 0x8000 â‰  0) | none => false
+
 def procSetattr (s : St) (c : Ctx) (args : Bytes) : St Ã— Outcome :=
   if s.cfg.readOnly then (s, res 30 (.wcc wcc0)) else
   match decFh' s args with
@@ -315,7 +318,7 @@ def procSetattr (s : St) (c : Ctx) (args : Bytes) : St Ã— Outcome :=
     | none => false
     | some (_, r4) => (decU32 r4).isSome)
   if Â¬ guardOk then (s, res 4 (.wcc wcc0)) else
-  if (match sa.mode with | some m => decide (m &&& 0x8000 â‰  0) | none => false) then (s, res 22 (.wcc wcc0)) else
+  if badModeBit sa then (s, res 22 (.wcc wcc0)) else
   match nodeOf s h with
   | none => (s, res 70 (.wcc wcc0))
   | some n =>
